@@ -145,7 +145,11 @@ func checkKnownFindings(rec *ev.Recorder) map[string]bool {
 			c.MaxStack = 128 << 20
 			CheckKnown(rec, id, func() bool {
 				r := runCaseChild(c, nil, true, caseTimeout(rec))
-				fmt.Printf("known finding %s: demonstration gives: %s\n", id, clip(strings.ReplaceAll(r.msg, "\n", " | "), 200))
+				secs := 0.0
+				if r.out != nil {
+					secs = r.out.Secs
+				}
+				fmt.Printf("known finding %s: demonstration (%.1fs) gives: %s\n", id, secs, clip(strings.ReplaceAll(r.msg, "\n", " | "), 200))
 				return r.msg != ""
 			})
 		}()
